@@ -217,7 +217,9 @@ def codecB (st : CodecSt) (ln : Nat) (line : String) (r : Report) : CodecSt × R
                 let r := if rl ≠ body.length then r.viol s!"C02 wire_remlen@{kind}" s!"{loc}: Remaining Length on the wire {rl}, body has {body.length} bytes: {short cont}" else r
                 let r := match ir with
                   | .panic => r.viol s!"C02 reparse@{kind}" s!"{loc}: parsing its own body panicked: {short cont}"
-                  | .err e => r.viol s!"C02 reparse@{kind}" s!"{loc}: its own body is rejected ({e}): {short cont}"
+                  | .err e =>
+                    let r := r.viol s!"C02 reparse@{kind}" s!"{loc}: its own body is rejected ({e}): {short cont}"
+                    if ver = 5 then r.viol s!"C18 builder_parser_disagree@{kind}" s!"{loc}: the builder accepted this packet and its property lists, the parser refuses the bytes it serialises to ({e}): {short cont}" else r
                   | .ok c _ cont2 _ _ _ =>
                     let r := if c ≠ body.length then r.viol s!"C02 consumed@{kind}" s!"{loc}: parse consumed {c} of {body.length} body bytes: {short cont}" else r
                     let r := if cont2 ≠ cont then r.viol s!"C02 reparse@{kind}" s!"{loc}: parse(encode p) re-encodes to {short cont2}, not {short cont}" else r
